@@ -33,6 +33,13 @@ package render
 //@ assigns *
 //@ method RenderBlock
 //@ assigns *
+//@ method InnerString
+//@ assigns *
+//@ ensures outputElsewhere: forall(x, "Val", !newbuf(x) ==> wtotal(x) == old(wtotal(x)))
+//@ method RenderFile
+//@ assigns *
+//@ ensures noOutput: forall(x, "Val", !newbuf(x) ==> wtotal(x) == old(wtotal(x)))
+//@ ensures one: result1 != nil ==> result0 == ""
 //@ method Evaluate
 //@ assigns nothing
 //@ method EvaluateString
@@ -42,3 +49,11 @@ package render
 //@ method Cause pure
 //@ method Path pure
 //@ method LineNumber pure
+
+// ---- the type of tag/block renderers: func(io.Writer, render.Context) error ---------
+// A renderer only ever writes to the writer it is given (or to fresh capture buffers).
+//@ func functype func(io.Writer, render.Context) error
+//@ names w ctx
+//@ requires args: w != nil && ctx != nil
+//@ assigns *
+//@ ensures onlyw: forall(x, "Val", x != w && !newbuf(x) ==> wtotal(x) == old(wtotal(x)))
